@@ -288,6 +288,12 @@ def r5_modes_honoured(ctx):
     out.extend(r5_oneshot_emulation(ctx, "C01.R5"))
     # every raw component reaches the walk
     out.extend(r6_component_queue(ctx, "C01.R5"))
+    # the backend is chosen by a probe that says "kernel" only where the kernel call works
+    from .c04 import r8_backend_probe
+    out.extend(r8_backend_probe(ctx, "C01.R5"))
+    # the emulated one-shot open reopens the resolved handle by descriptor, in the calling thread's table
+    from .c09 import reopen_by_descriptor
+    out.extend(reopen_by_descriptor(ctx, "C01.R5"))
     # NO_SYMLINKS honoured (shared rule shape with C07)
     from .c07 import walk_rules
     for i in walk_rules(ctx, DR, "C01.R5"):
@@ -329,7 +335,8 @@ def r7_budget_vs_kernel(ctx):
     elif allowed == KERNEL_MAXSYMLINKS:
         out.append(holds("C01.R7", "MAX_SYMLINK_TRAVERSALS", b.where(), "emulated walk allows %d link traversals, like the kernel" % allowed))
     else:
-        out.append(violated("C01.R7", "MAX_SYMLINK_TRAVERSALS", b.where(),
+        # keyed by the budget: a different disagreement with the kernel is a different finding
+        out.append(violated("C01.R7", "MAX_SYMLINK_TRAVERSALS:allows-%d" % allowed, b.where(),
                             "the emulated walk follows up to %d links, the kernel (and thus the openat2 backend) %d: chains of %d..%d links resolve on one backend and fail with ELOOP on the other"
                             % (allowed, KERNEL_MAXSYMLINKS, min(allowed, KERNEL_MAXSYMLINKS) + 1, max(allowed, KERNEL_MAXSYMLINKS))))
     return out
